@@ -159,6 +159,7 @@ def run_driver(binary, args, cases, obs, timeout=600, per_case_timeout=20, env=N
     total = count_lines(cases)
     start = 0
     deaths = 0
+    hangs = 0
     e = dict(os.environ)
     e.update(env or {})
     t_end = time.time() + timeout
@@ -183,6 +184,9 @@ def run_driver(binary, args, cases, obs, timeout=600, per_case_timeout=20, env=N
                 if time.time() > t_end:
                     p.kill()
                     p.wait()
+                    if hangs > 0:        # the time went into cases that never returned: those are recorded (data), the rest of the file is left unrun
+                        log("  driver %s: %d case(s) hung, the remaining %d of %d cases were not run" % (" ".join(args), hangs, total - count_lines(obs), total))
+                        return total
                     raise ToolError("driver %s exceeded %ds" % (" ".join(args), timeout))
         if p.returncode == 0 and killed is None:
             break
@@ -210,6 +214,7 @@ def run_driver(binary, args, cases, obs, timeout=600, per_case_timeout=20, env=N
                     case = json.loads(line)
                     break
         if killed == "timeout":
+            hangs += 1
             case["out"] = {"timeout": True}
         else:
             sig = -p.returncode if p.returncode and p.returncode < 0 else (p.returncode or 0)
@@ -218,6 +223,9 @@ def run_driver(binary, args, cases, obs, timeout=600, per_case_timeout=20, env=N
         with open(obs, "a") as f:
             f.write(json.dumps(case, separators=(",", ":")) + "\n")
         start = done + 1
+        if hangs >= 8:
+            log("  driver %s: %d cases hung; the remaining %d of %d cases were not run" % (" ".join(args), hangs, total - count_lines(obs), total))
+            break
     return total
 
 
@@ -317,6 +325,9 @@ def to_tagged(j):
             return {"t": "num", "big": str(j)}
         return {"t": "num", "p": j, "q": 1}
     if isinstance(j, float):
+        import math
+        if j == 0.0 and math.copysign(1.0, j) < 0:
+            return {"t": "num", "p": 0, "q": 1, "z": True}       # -0.0: the number 0 with its sign bit set (the drivers build it so, the judge never sees z)
         from fractions import Fraction
         fr = Fraction(j).limit_denominator(1000)
         return {"t": "num", "p": fr.numerator, "q": fr.denominator}
